@@ -106,7 +106,8 @@ fn serve_connect(mut io: ServerIo, srv: Value) -> (ServerIo, bool) {
     }
     // client info, licence
     if io.recv_tpkt().is_err() { io.drain(300); return (io, false); }
-    let lic = if gs(&srv, "licence", "valid") == "new" { rp::licence_new_license() } else { rp::licence_valid_client() };
+    let pflags = srv.get("licflags").and_then(|x| x.as_u64()).unwrap_or(3) as u8;
+    let lic = if gs(&srv, "licence", "valid") == "new" { rp::licence_new_license_f(pflags) } else { rp::licence_valid_client_f(pflags) };
     if io.send(&lic, "Licence").is_err() { return (io, false); }
     (io, true)
 }
@@ -164,6 +165,7 @@ fn run_plan(plan: &Value, tr: &mut Tracer) {
     let name = if cfg.get("name").is_some() { cps_to_string(cfg.get("name")) } else { "rdp-rs".to_string() };
     let mut client: Option<RdpClient<UnixStream>> = None;
     let (res, ek);
+    let alloc_base = crate::outcome::alloc_window_start();
     if api == "x224" {
         let mask = gu(&cfg, "mask", 3) as u32;
         let mut auth = Ntlm::new(domain.clone(), user.clone(), password.clone());
@@ -176,7 +178,8 @@ fn run_plan(plan: &Value, tr: &mut Tracer) {
                 let mut io = io;
                 drop(c);
                 emit_server_events(tr, &mut io);
-                tr.event(json!({"ev": "ret", "api": "connect", "res": res, "ek": ek}));
+                let (peak, maxreq) = crate::outcome::alloc_window_end(alloc_base);
+                tr.event(json!({"ev": "ret", "api": "connect", "res": res, "ek": ek, "peak": peak, "maxreq": maxreq}));
                 return;
             }
             Outcome::Done(Err(e)) => { let r: rdp::model::error::RdpResult<()> = Err(e); let (a, b) = classify(&r); res = a.to_string(); ek = b; }
@@ -203,9 +206,10 @@ fn run_plan(plan: &Value, tr: &mut Tracer) {
             Outcome::Panic(m) => { res = "panic".to_string(); ek = m; }
         }
     }
+    let (peak, maxreq) = crate::outcome::alloc_window_end(alloc_base);
     let (mut io, up) = server.join().unwrap();
     emit_server_events(tr, &mut io);
-    tr.event(json!({"ev": "ret", "api": "connect", "res": res, "ek": ek, "server_up": up}));
+    tr.event(json!({"ev": "ret", "api": "connect", "res": res, "ek": ek, "server_up": up, "peak": peak, "maxreq": maxreq}));
     let mut client = match client { Some(c) if up => c, _ => { return; } };
     // ---- phase 2: activation, a few inputs, shutdown (single threaded)
     let acts = gu(&srv, "activations", 1);
